@@ -106,6 +106,15 @@ func boundOf(k kind, param string) float64 {
 func domainOf(k kind, vals []vtag) dom {
 	d := dom{k: k}
 	d.lo, d.hi, d.hasLo, d.hasHi = intrinsic(k)
+	return d.with(vals)
+}
+
+// tagOnly is the domain one validator alone describes (without the range the
+// kind's own Validate accepts).
+func tagOnly(k kind, v vtag) dom { return dom{k: k}.with([]vtag{v}) }
+
+func (d dom) with(vals []vtag) dom {
+	k := d.k
 	raise := func(x float64) {
 		if !d.hasLo || x > d.lo {
 			d.lo, d.hasLo = x, true
@@ -537,8 +546,8 @@ func (g *pgen) iface(n *pnode, ctx pctx) {
 			}
 			n.sshape = "interface-field"
 			n.inPre = true
-			n.inCfg = ctx.canCfg && (needCfg || g.force || r.Intn(2) == 0)
-			if needCfg && !n.inCfg {
+			n.inCfg = ctx.canCfg && (needCfg || req || g.force || r.Intn(2) == 0)
+			if (needCfg || req) && !n.inCfg {
 				g.infeasible = true
 			}
 			g.structKids(n, pctx{n.inCfg, true, n.inCfg})
@@ -745,6 +754,9 @@ func (o *cfgOut) leaf(n *pnode) interface{} {
 		v = encode(k, n.cfgVal, n.form%3)
 	}
 	if n.viaVar {
+		if d, ok := n.cfgVal.(time.Duration); ok {
+			v = d.String() // a referenced number is not read as seconds (C03's business)
+		}
 		if s, ok := v.(string); !ok || s != "" { // an empty string is not moved into a variable
 			o.nvar++
 			name := "x" + strconv.Itoa(o.nvar)
